@@ -37,6 +37,15 @@ EXTRA = {
         "(values = converter output, unit = requested): within C06 as stated; whether the resulting table is a "
         "valid table is C15's matter (with a dtype-changing converter the result cannot even be read: "
         "ColumnUnitException; reported, only dtype-preserving converters are generated for this shape)",
+        "outside the domain (model and code differ or nothing is generated): `to` being a defaultdict (`.get` differs "
+        "from `[]`), range / bytes / other exotic Sequences (non-str elements become units), a callable class such as "
+        "`str`, an ndarray or Series (`to == 'origin'` is ambiguous: ValueError, the model says TypeError), a Mapping "
+        "that is not a dict (generated once as a non-dispatcher: TypeError), a converter reporting a non-str base "
+        "unit; convert_units also drops metadata.transposed and gives the result a derived origin (not in the statement)",
+        "the oracle judges the returned table and the error class only — not how often, in which order or in which "
+        "grouping the converter is consulted; when conversions fail, any of the errors of the failing columns (or "
+        "the injected failure the converter actually raised) is accepted; which one comes first is proved for the "
+        "model (first_failure_error) and compared with the code through the correspondence",
         "the per-column spellings `__base__` / `__origin__` and the whole-table form 'origin' are modelled and "
         "compared with the code but are outside the oracle (the statement does not speak about them)",
     ],
@@ -156,7 +165,7 @@ class ConvBoom(RuntimeError):
 UNITS = {"affine": ["u1", "u2", "uh", "uk", "p", "q"],
          "demo": ["mm", "m", "C", "K", "g", "kg", "meter"],
          "pint": ["mm", "m", "cm", "km", "g", "kg", "degC", "kelvin", "s", "min"],
-         "ident": ["m", "mm", "anything"], "inplace": ["m", "mm", "km"]}
+         "ident": ["m", "mm", "anything", "-", ""], "inplace": ["m", "mm", "km"]}
 BAD_UNITS = {"affine": ["zz", "m"], "demo": ["furlong", "u1"], "pint": ["kg", "m", "nosuchunit"],
              "ident": ["text", "onoff", "datetime"],     # special units requested for a numeric column: relabelled
              "inplace": ["cm"]}
@@ -343,7 +352,10 @@ def build_to(spec, colnames):
         f.backing = d
         return f, {"kind": "fn", "m": [[nm, f(nm)] for nm in colnames]}
     if k == "other":
-        return {"int": 5, "none": None, "set": {"a", "b"}, "float": 3.5}[spec["what"]], {"kind": "other"}
+        import types
+        # (a Mapping that is not a dict is outside ColumnUnitDispatcher: neither Sequence, Dict nor callable)
+        return {"int": 5, "none": None, "set": {"a", "b"}, "float": 3.5,
+                "mappingproxy": types.MappingProxyType({"a": "m", "b": "mm"})}[spec["what"]], {"kind": "other"}
     raise InfraError("unknown dispatcher kind " + k)
 
 
@@ -523,47 +535,43 @@ def oracle(case, obs, out):
         fail("convert_units returned a table whose units / values cannot be read", obs["unreadable"], "a Table",
              "unreadable:" + obs["unreadable"])
         return
-    expected_cols, expected_exc, calls = [], None, []
+    # every column is judged on its own; nothing is assumed about how often, in which order or in which grouping the
+    # implementation consults the converter (the statement promises the content of the columns, not a call protocol)
+    expected_cols, static_errors = [], set()
     for c, tgt in zip(cols, targets):
         if tgt is None or tgt == c["unit"]:
             expected_cols.append((c, None))
             continue
         if c["unit"] in SPECIAL:
-            expected_exc = "UnitConversionNotDefinedError"
-            break
-        k = len(calls)
+            static_errors.add("UnitConversionNotDefinedError")      # refused
+            expected_cols.append((c, None))
+            continue
         args = ([untok(v) for v in c["vals"]], c["unit"]) + (() if tgt == "__base__" else (tgt,))
-        calls.append((c["vals"], c["unit"], None if tgt == "__base__" else tgt))
-        if cv.get("fail_at") is not None and k == cv["fail_at"]:
-            expected_exc = "ConvBoom"
-            break
         try:
             import numpy as np
             vals, reported = pure(np.array(args[0], dtype=float if c["dtype"].startswith("float") else np.int64), *args[1:])
         except Exception as e:
-            expected_exc = type(e).__name__
-            break
+            static_errors.add(type(e).__name__)                      # this conversion is not defined
+            expected_cols.append((c, None))
+            continue
         import pandas as pd
         expected_cols.append((c, {"vals": toks(pd.Series(vals).tolist()),
                                   "dtype": str(pd.Series(vals).to_numpy().dtype),
                                   "unit": reported if tgt == "__base__" else tgt}))
-    # the converter was consulted once per targeted convertible column, in order, with the original values
-    seen = [(e["vals"], e["from"], e["to"]) for e in obs["log"]]
-    if len(seen) != len(calls) or any(not (same_toks(a[0], b[0]) and a[1:] == b[1:]) for a, b in zip(seen, calls)):
-        fail("converter calls differ from 'once per targeted convertible column, with its original values'",
-             [list(s[1:]) for s in seen], [list(s[1:]) for s in calls], "converter_calls")
-        return
-    out.count("oracle:expects_" + (expected_exc or "table"))
-    if expected_exc is None and any(e is not None and e["unit"] in SPECIAL and c["unit"] not in SPECIAL
-                                    for c, e in expected_cols):
+    # failures the converter actually produced during the call (failure injection), whatever call it was
+    observed_errors = {e["exc"] for e in obs["log"] if "exc" in e}
+    possible = static_errors | observed_errors
+    out.count("oracle:expects_" + ("error" if possible else "table"))
+    if not possible and any(e is not None and e["unit"] in SPECIAL and c["unit"] not in SPECIAL
+                            for c, e in expected_cols):
         out.count("oracle:numeric_column_relabelled_special")
-    if expected_exc is not None:
+    if possible:
         if "exc" not in obs:
-            fail("a conversion failed / was refused but a table was returned", "table", expected_exc,
-                 "no_error:" + expected_exc)
-        elif obs["exc"] != expected_exc:
-            fail("the caller did not get the error of the failing conversion", obs["exc"], expected_exc,
-                 "error_class:" + expected_exc)
+            fail("a conversion failed / was refused but a table was returned", "table", sorted(possible),
+                 "no_error:" + "+".join(sorted(possible)))
+        elif obs["exc"] not in possible:
+            fail("the caller did not get the error of a failing conversion", obs["exc"], sorted(possible),
+                 "error_class:" + "+".join(sorted(possible)))
         return
     if "exc" in obs:
         fail("convert_units raised although every requested conversion is defined", obs["exc"], "table",
@@ -641,7 +649,9 @@ def compare(case, obs, ans, out):
 # ---------------------------------------------------------------- generator
 
 NAMES = ["t", "tab", "é_1"]
-COLNAMES = ["a", "b", "c", "d", "e", "col é"]
+# names that differ in letter case only / have inner blanks sit next to each other: a lookup that folds case or strips
+# would hit the wrong column
+COLNAMES = ["a", "b", "c", "d", "e", "col é", "A", "B", "a b", "A B", "Col É", "f", "g"]
 NUMS_INT = [0, 1, 2, 3, -4, 16, 1000, -1]
 NUMS_FLOAT = [0.0, 1.0, 0.5, -3.0, 1.25, 1e6, None, 2.0, -0.0, 1024.0]
 TS = ["2020-01-01T00:00:00", "1999-12-31T23:59:59", None]
@@ -649,7 +659,7 @@ TS = ["2020-01-01T00:00:00", "1999-12-31T23:59:59", None]
 
 def gen_table(rng, family):
     n = rng.choice([0, 1, 2, 3, 3, 4, 5])
-    ncol = rng.choice([0, 1, 2, 2, 3, 3, 4, 5])
+    ncol = rng.choice([0, 1, 2, 2, 3, 3, 4, 5, 6, 8, 11])
     names = rng.sample(COLNAMES, ncol)
     cols = []
     for nm in names:
@@ -714,12 +724,23 @@ def gen_to(rng, table, family):
         m = [[c["name"], unit_choice(rng, c, family)] for c in cols if rng.random() < 0.7]
         if rng.random() < 0.5:
             m.insert(rng.randint(0, len(m)), ["no such column", rng.choice(UNITS[family])])
+        # keys that are NOT column names but differ from one only in letter case or by surrounding / inner blanks:
+        # superfluous names, to be ignored
+        names = {c["name"] for c in cols}
+        taken = {k for k, _ in m}
+        for c in cols:
+            if rng.random() < 0.35:
+                near = rng.choice([c["name"].swapcase(), c["name"].upper(), " " + c["name"], c["name"] + " ",
+                                   c["name"].replace(" ", "  ") + "\t"])
+                if near not in names and near not in taken:
+                    taken.add(near)
+                    m.append([near, rng.choice(UNITS[family] + BAD_UNITS[family])])
         rng.shuffle(m)
         return {"kind": form, "m": m}
     if form == "percol":
         # per-column spellings __base__ / __origin__ inside a positional list
         return {"kind": "list", "xs": [rng.choice([None, "__base__", "__base__", "__origin__", c["unit"]]) for c in cols]}
-    return {"kind": "other", "what": rng.choice(["int", "none", "set", "float"])}
+    return {"kind": "other", "what": rng.choice(["int", "none", "set", "float", "mappingproxy"])}
 
 
 def gen_conv(rng, family):
